@@ -96,6 +96,7 @@ pub fn mains() -> Vec<(&'static str, &'static str)> {
         ("no_path", "int pre = 1;\ninclude;\ninclude \"a.inc\";\n"),
         ("in_if_then_top", "if (true) { include \"a.inc\"; }\ninclude \"b.inc\";\nint s = vb;\n"),
         ("in_def_then_top", "def f() { include \"b.inc\"; }\ninclude \"a.inc\";\nint s = va;\n"),
+        ("dot_stdgates", "include \"./stdgates.inc\";\nint post = 1;\n"),
         ("stdgates_mid", "include \"a.inc\";\ninclude \"stdgates.inc\";\ninclude \"b.inc\";\nint s = vb;\nqubit q;\nh q;\n"),
         ("annotated", "int pre = 1;\n@note one\n@second\ninclude \"a.inc\";\nint post = 2;\n"),
         ("annotated_last", "int pre = 1;\n@note one\ninclude \"b.inc\";\n"),
@@ -292,6 +293,11 @@ impl Configs {
     fn run_config(&self, arr: &Arrangement, tree: &Tree, list: &[usize], mode: Mode, main_idx: usize, file_entry: bool, ctx: &mut Ctx, ai: u64) {
         let (mname, mtext) = mains()[main_idx];
         if (mname == "nested") && self.nfiles < 3 {
+            return;
+        }
+        // with a real file of that name in the directories `./stdgates.inc` is an ordinary
+        // include of that file (the reference resolver only knows the three include files)
+        if mname == "dot_stdgates" && (arr.b_kind == 5 || arr.b_kind == 6) {
             return;
         }
         let main_text = mtext.replace("@ABS@", tree.root.to_str().unwrap_or(""));
